@@ -42,9 +42,9 @@ recv = Fn(F, ["recv"], ret="r", extra_params="Tracked(k): Tracked<&mut K>",
     ],
     ensures=[
         Clause("unix.recv/ensures.ok_exact_payload_and_attachments",
-               "r matches Ok((d, c, s)) ==> recv_ok_post(*old(k), *final(k), fd, d@, c@, s@)", ["C01", "C02", "C04", "C12", "C18"]),
+               "r matches Ok((d, c, s)) ==> recv_ok_post(*old(k), *final(k), fd, d@, c@, s@)", ["C01", "C02", "C04", "C05", "C12", "C13", "C18"]),
         Clause("unix.recv/ensures.ok_only_if_complete",
-               "r is Ok ==> head_complete(*old(k), fd)", ["C12", "C01"]),
+               "r is Ok ==> head_complete(*old(k), fd)", ["C12", "C01", "C13"]),
         Clause("unix.recv/ensures.complete_head_is_delivered_or_io_error",
                "head_complete(*old(k), fd) ==> !(r matches Err(UnixError::ChannelClosed))", ["C12", "C03", "C01"]),
         Clause("unix.recv/ensures.closed_only_on_own_eof",
@@ -56,9 +56,9 @@ recv = Fn(F, ["recv"], ret="r", extra_params="Tracked(k): Tracked<&mut K>",
         0: Loop(desugar_range_for=True, invariants=[
             Clause("unix.recv/loop0.invariant.split",
                    "index <= channel_length && cmsg.got == Some(p) && channel_length == p.fds.len() && p.fds.len() <= MAX_FDS_IN_CMSG\n"
-                   "&& *k == k1\n"
+                   "&& k.q == k1.q && k.sock == k1.sock && k.peer == k1.peer && k.log == k1.log\n"
                    "&& opaque_fds(channels@) == socks(p.fds.subrange(0, index as int), k1.sock)\n"
-                   "&& region_fds(shared_memory_regions@) == nonsocks(p.fds.subrange(0, index as int), k1.sock)", ["C04", "C18"])],
+                   "&& region_fds(shared_memory_regions@) == nonsocks(p.fds.subrange(0, index as int), k1.sock)", ["C04", "C05", "C13", "C18"])],
             decreases="channel_length - index", continue_hint=Hint("-", SPLIT_STEP, "unix.recv/loop0.invariant.split")),
         1: Loop(invariants=[
             Clause("unix.recv/loop1.invariant.reassembly",
@@ -70,7 +70,7 @@ recv = Fn(F, ["recv"], ret="r", extra_params="Tracked(k): Tracked<&mut K>",
                    "&& (head_complete(k0, fd) ==> main_data_buffer@.len() + flat(k.q[ded]).len() == total_size)\n"
                    "&& main_data_buffer@ + flat(k.q[ded]) == p.data + flat(k0.q[ded])\n"
                    "&& k.q == k0.q.insert(fd, k0.q[fd].drop_first()).insert(ded, k.q[ded])\n"
-                   "&& k.sock == k0.sock", ["C01", "C12", "C18"])],
+                   "&& k.sock == k0.sock", ["C01", "C12", "C13", "C18"])],
             decreases="total_size - main_data_buffer@.len()"),
     },
     hints=[
@@ -102,32 +102,13 @@ recv = Fn(F, ["recv"], ret="r", extra_params="Tracked(k): Tracked<&mut K>",
              "    assert(k.q =~= k0.q.insert(fd, k0.q[fd].drop_first()).insert(ded, k.q[ded]));\n"
              "}", "unix.recv/loop1.invariant.reassembly"),
         Hint("loop:1:start",
-             "let ghost kb = *k;\nlet ghost mb = main_data_buffer@;\nlet ghost mut after_set = main_data_buffer@;\nlet ghost mut after_recv = main_data_buffer@;\n"
-             "proof { lemma_flat_pos(kb.q[ded]); if kb.q[ded].len() > 0 { lemma_flat_first(kb.q[ded]); } }"),
-        Hint("after:main_data_buffer\\.set_len\\(end_pos\\);", "proof { after_set = main_data_buffer@; }", "unix.recv/loop1.invariant.reassembly"),
-        Hint("after:let result = libc::recv\\([^;]*;", "proof { after_recv = main_data_buffer@; }", "unix.recv/loop1.invariant.reassembly"),
-        Hint("before:match result\\.cmp\\(&0\\)",
+             "let ghost kb = *k;\nlet ghost mb = main_data_buffer@;\n"
              "proof {\n"
-             "    if result > 0 {\n"
-             "        let hp = kb.q[ded].first();\n"
-             "        assert(main_data_buffer@.len() == mb.len() + hp.data.len());\n"
-             "        assert forall|i: int| 0 <= i < main_data_buffer@.len() implies main_data_buffer@[i] == (mb + hp.data)[i] by {\n"
-             "            if i < mb.len() {\n"
-             "                assert(after_recv.subrange(0, mb.len() as int)[i] == after_set.subrange(0, mb.len() as int)[i]);\n"
-             "            } else {\n"
-             "                assert(after_recv.subrange(mb.len() as int, mb.len() + result)[i - mb.len()] == hp.data[i - mb.len()]);\n"
-             "            }\n"
-             "        }\n"
-             "        assert(main_data_buffer@ =~= mb + hp.data);\n"
-             "        assert((mb + hp.data) + flat(kb.q[ded].drop_first()) =~= mb + (hp.data + flat(kb.q[ded].drop_first())));\n"
-             "        assert(followups_ok(k.q[ded])) by {\n"
-             "            assert forall|i: int| 0 <= i < k.q[ded].len() implies (#[trigger] k.q[ded][i]).hdr is None && k.q[ded][i].fds.len() == 0 && 0 < k.q[ded][i].data.len() <= spec_frag(sys_sendbuf()) by {\n"
-             "                assert(k.q[ded][i] == kb.q[ded][i + 1]);\n"
-             "            }\n"
-             "        }\n"
-             "        assert(k.q =~= k0.q.insert(fd, k0.q[fd].drop_first()).insert(ded, k.q[ded]));\n"
-             "    }\n"
-             "}", "unix.recv/loop1.invariant.reassembly"),
+             "    lemma_flat_pos(kb.q[ded]);\n"
+             "    if kb.q[ded].len() > 0 { lemma_flat_first(kb.q[ded]); lemma_followups_drop_first(kb.q[ded]); }\n"
+             "    assert forall|a: Seq<u8>, b: Seq<u8>, c: Seq<u8>| #[trigger] ((a + b) + c) == a + (b + c) by { assert(((a + b) + c) =~= a + (b + c)); }\n"
+             "    assert(mb.subrange(0, mb.len() as int) =~= mb);\n"
+             "}"),
         Hint("loop:1:after",
              "proof {\n"
              "    lemma_flat_pos(k.q[ded]);\n"
@@ -167,15 +148,15 @@ UNIT = Unit(
             ("impl OsIpcReceiver", [receiver_from_fd]),
             ("impl OsOpaqueIpcChannel", [opaque_from_fd, opaque_to_sender, opaque_to_receiver]),
             (None, [cmsg_align, recv])],
-    props=["C01", "C02", "C03", "C04", "C10", "C12", "C18"],
+    props=["C01", "C02", "C03", "C04", "C05", "C10", "C11", "C12", "C13", "C18"],
     prelude_clauses={
-        "std.set_len/requires.le_capacity": ["C18"],
+        "std.set_len/requires.le_capacity": ["C18", "C13"],
         "unix.UnixCmsg.recv/requires.header_iovec_is_usize": ["C18", "C01"],
         "unix.UnixCmsg.recv/requires.data_iovec_is_buffer_len": ["C18", "C01"],
         "unix.UnixCmsg.cmsg_len/requires.control_data_present": ["C18"],
         "unix.recv.fd_at/requires.index_lt_received": ["C18", "C04"],
         "unix.recv.fd_at/requires.inside_control_buffer": ["C18"],
-        "unix.recv.k_recv/requires.write_inside_buffer": ["C18"],
+        "unix.recv.k_recv/requires.write_inside_buffer": ["C18", "C13"],
         "unix.recv.k_recv/requires.blocking_read": ["C10"],
     },
     kernel_clauses=[
